@@ -108,7 +108,7 @@ def _case(draw, ctx):
     allnodes = names + pins
     n_assume = min(draw(st.sampled_from([0, 0, 1, 1, 2, 3])), len(allnodes))
     assumed = draw(st.lists(st.sampled_from(allnodes), min_size=n_assume, max_size=n_assume, unique=True))
-    vals = draw(st.lists(st.booleans(), min_size=n_assume, max_size=n_assume))
+    vals = draw(st.lists(st.sampled_from([False, True, False, True, 0, 1]), min_size=n_assume, max_size=n_assume))
     return {"kind": kind, "spec": spec, "assume": [[n, v] for n, v in zip(assumed, vals)]}
 
 
@@ -167,6 +167,7 @@ def _parse_dimacs(path):
     ind = None
     clauses = []
     nv = None
+    declared = []
     with open(path) as f:
         for line in f:
             line = line.strip()
@@ -181,12 +182,17 @@ def _parse_dimacs(path):
                 continue
             elif line.startswith("p"):
                 parts = line.split()
+                if len(parts) != 4 or parts[1] != "cnf":
+                    raise Violation("approx|dimacs_header", f"malformed problem line {line!r}")
                 nv, ncl = int(parts[2]), int(parts[3])
+                declared.append(ncl)
             else:
                 toks = [int(t) for t in line.split()]
                 if toks[-1:] != [0]:
                     raise Violation("approx|dimacs", f"clause line not 0-terminated: {line}")
                 clauses.append(toks[:-1])
+    if len(declared) != 1 or declared[0] != len(clauses):
+        raise Violation("approx|dimacs_header", f"problem line declares {declared} clauses, the file has {len(clauses)}")
     return ind, nv, clauses
 
 
@@ -232,7 +238,7 @@ def check(case, ctx):
     if stt["has_bb"]:
         labels.append("has_blackbox")
     if kind in ("count", "approx"):
-        A = {n: bool(v) for n, v in case["assume"]}
+        A = {n: v for n, v in case["assume"]}  # bools and 0/1 ints, as documented (dict of str:int)
         exp, nsp, flags = _ref_count(c, A)
         if exp is None or nsp > 12:
             return {"nontrivial": False, "labels": labels + ["skipped_too_big"]}
